@@ -598,6 +598,56 @@ func sweepAgreement(p *Prog, pc *PropConfig, tags string, r *checkResult) {
 		}
 		s.oblige(multi, "agreement", "element "+n, multi.Pos(), ok, why)
 	}
+	// --- settings are read at each call: the encoder packages' JSONMarshalFunc must forward to the
+	// process-wide InterfaceMarshalFunc when it is called, not capture its value at init time
+	nBind := 0
+	for _, fn := range p.AllFns {
+		if fn.Pkg == nil || fn.Pkg.Pkg.Path() != p.ModPath || !isInitFn(fn) {
+			continue
+		}
+		for _, b := range fn.Blocks {
+			for _, in := range b.Instrs {
+				st, ok := in.(*ssa.Store)
+				if !ok {
+					continue
+				}
+				g, ok := st.Addr.(*ssa.Global)
+				if !ok || g.Name() != "JSONMarshalFunc" {
+					continue
+				}
+				nBind++
+				late := false
+				var target *ssa.Function
+				switch v := st.Val.(type) {
+				case *ssa.Function:
+					target = v
+				case *ssa.MakeClosure:
+					target, _ = v.Fn.(*ssa.Function)
+				}
+				if target != nil {
+					for _, bb := range target.Blocks {
+						for _, ii := range bb.Instrs {
+							if c, ok := ii.(*ssa.Call); ok {
+								if u, ok := c.Call.Value.(*ssa.UnOp); ok && u.Op == token.MUL {
+									if gg, ok := u.X.(*ssa.Global); ok && gg.Name() == "InterfaceMarshalFunc" {
+										late = true
+									}
+								}
+							}
+						}
+					}
+				}
+				why := g.String() + " forwards to InterfaceMarshalFunc, loaded when it is called"
+				if !late {
+					why = g.String() + " is bound to the value InterfaceMarshalFunc has at init time: a marshaler installed later (a setting the property says is read at each call) is ignored by this build"
+				}
+				s.oblige(fn, "agreement", "late binding of "+g.Pkg.Pkg.Name()+".JSONMarshalFunc", in.Pos(), late, why)
+			}
+		}
+	}
+	if nBind == 0 {
+		r.errors = append(r.errors, "agreement sweep: no init store to JSONMarshalFunc found")
+	}
 	// --- alphabet: RawCBOR is rendered with one base64 alphabet on both sides (JSON encoder, CBOR decoder)
 	used := map[string][]string{}
 	for _, fn := range p.AllFns {
